@@ -37,6 +37,9 @@ def run(res, replay=None):
                 s['migration_rates'] = {k: ({t: 0.0 for t in d} if k.endswith('>' + last) else d)
                                         for k, d in s['migration_rates'].items()}
                 unreachable = [last]
+            if i % 4 == 2:
+                s['start_time'] = rng.choice([0.25, 0.5])
+                s['end_time'] = s['end_time'] + 1.0
             cases.append({'spec': s, 'unreachable': unreachable})
     orc.run_oracle(res, 'marginals', cases, chunk=1)
     # correspondence of per-population means with the model
